@@ -4,3 +4,4 @@ import Rtcp.Impl.Packets
 import Rtcp.Impl.Sdes
 import Rtcp.Impl.Feedback
 import Rtcp.Impl.Compound
+import Rtcp.Spec.All
